@@ -9,6 +9,7 @@ import (
 	"fmt"
 	"net/http"
 	"net/http/httptest"
+	"reflect"
 	"strings"
 	"testing"
 	"time"
@@ -140,32 +141,134 @@ func refParse(h string) (token string, ok bool) {
 	return fields[1], true
 }
 
-// parseChallenge is an independent reader of `Bearer k="v", k="v"`.
-func parseChallenge(h string) (map[string]string, error) {
-	rest, ok := strings.CutPrefix(h, "Bearer ")
-	if !ok {
-		return nil, fmt.Errorf("challenge %q does not start with the Bearer scheme", h)
+// canonicalHeader: the one shape every reading of "a syntactically valid Bearer credential" accepts
+// (RFC 6750 2.1 with the case-insensitive scheme of RFC 9110): scheme, one blank, a b64token.
+func canonicalHeader(h string) bool {
+	scheme, tok, ok := strings.Cut(h, " ")
+	if !ok || !strings.EqualFold(scheme, "bearer") || tok == "" {
+		return false
 	}
-	out := map[string]string{}
-	for rest != "" {
-		eq := strings.Index(rest, "=\"")
-		if eq < 0 {
-			return nil, fmt.Errorf("malformed auth-param in %q", h)
+	body := strings.TrimRight(tok, "=")
+	if body == "" {
+		return false
+	}
+	for _, r := range body {
+		if !(r >= 'a' && r <= 'z' || r >= 'A' && r <= 'Z' || r >= '0' && r <= '9' || strings.ContainsRune("-._~+/", r)) {
+			return false
 		}
-		k := strings.TrimSpace(rest[:eq])
-		if _, dup := out[k]; dup {
-			return nil, fmt.Errorf("auth-param %s occurs more than once in challenge %q", k, h)
+	}
+	return true
+}
+
+// headerShape sorts the Authorization header lines of a request into
+//
+//	"canonical": one line of the canonical shape - must be taken as a credential;
+//	"invalid":   no line that anybody could read as a Bearer credential - must be rejected;
+//	"grey":      tabs or several blanks as separator, leading/trailing blanks, characters outside b64token,
+//	             several header lines: the property text does not say whether that is "syntactically valid",
+//	             either reading is accepted (as long as the rest of the predicate is applied consistently).
+func headerShape(hs []string) string {
+	anyRef := false
+	for _, h := range hs {
+		if _, ok := refParse(h); ok {
+			anyRef = true
 		}
-		rest = rest[eq+2:]
-		end := strings.IndexByte(rest, '"')
-		if end < 0 {
-			return nil, fmt.Errorf("unterminated quoted-string in %q", h)
+	}
+	switch {
+	case !anyRef:
+		return "invalid"
+	case len(hs) == 1 && canonicalHeader(hs[0]):
+		return "canonical"
+	}
+	return "grey"
+}
+
+// parseChallenges is an independent reader of WWW-Authenticate values (RFC 9110 11.6.1): it returns the
+// auth-params of every challenge of the Bearer scheme (scheme matched case-insensitively, parameter values in
+// token or quoted-string form). A parameter repeated within one challenge is an error.
+func parseChallenges(values []string) ([]map[string]string, error) {
+	var out []map[string]string
+	isTok := func(c byte) bool { return c > ' ' && c < 0x7f && !strings.ContainsRune("\"(),/:;<=>?@[\\]{}", rune(c)) }
+	for _, h := range values {
+		var cur map[string]string // params of the Bearer challenge being read (nil: another scheme)
+		i := 0
+		skip := func() {
+			for i < len(h) && (h[i] == ' ' || h[i] == '\t' || h[i] == ',') {
+				i++
+			}
 		}
-		out[k] = rest[:end]
-		rest = strings.TrimPrefix(strings.TrimSpace(rest[end+1:]), ",")
-		rest = strings.TrimSpace(rest)
+		for skip(); i < len(h); skip() {
+			st := i
+			for i < len(h) && isTok(h[i]) {
+				i++
+			}
+			word := h[st:i]
+			if word == "" {
+				return nil, fmt.Errorf("malformed challenge %q at offset %d", h, i)
+			}
+			j := i
+			for j < len(h) && (h[j] == ' ' || h[j] == '\t') {
+				j++
+			}
+			if j >= len(h) || h[j] != '=' { // an auth-scheme
+				cur = nil
+				if strings.EqualFold(word, "bearer") {
+					cur = map[string]string{}
+					out = append(out, cur)
+				}
+				continue
+			}
+			i = j + 1
+			for i < len(h) && (h[i] == ' ' || h[i] == '\t') {
+				i++
+			}
+			val := ""
+			if i < len(h) && h[i] == '"' {
+				var b strings.Builder
+				for i++; ; i++ {
+					if i >= len(h) {
+						return nil, fmt.Errorf("unterminated quoted-string in %q", h)
+					}
+					if h[i] == '\\' && i+1 < len(h) {
+						i++
+					} else if h[i] == '"' {
+						i++
+						break
+					}
+					b.WriteByte(h[i])
+				}
+				val = b.String()
+			} else {
+				st = i
+				for i < len(h) && h[i] != ',' && h[i] != ' ' && h[i] != '\t' {
+					i++
+				}
+				val = h[st:i]
+			}
+			if cur != nil {
+				k := strings.ToLower(word)
+				if _, dup := cur[k]; dup {
+					return nil, fmt.Errorf("auth-param %s occurs more than once in challenge %q", k, h)
+				}
+				cur[k] = val
+			}
+		}
 	}
 	return out, nil
+}
+
+func sameSet(a, b []string) bool {
+	for _, x := range a {
+		if !contains(b, x) {
+			return false
+		}
+	}
+	for _, x := range b {
+		if !contains(a, x) {
+			return false
+		}
+	}
+	return true
 }
 
 func contains(xs []string, x string) bool {
@@ -256,6 +359,13 @@ func runCase(s Script) (res vt.Result) {
 		hdr = s.Headers[0]
 	}
 	tok, validHeader := refParse(hdr)
+	grey := headerShape(s.Headers) == "grey"
+	if grey {
+		// Neither clearly a Bearer credential nor clearly none: whether the middleware handed a token to the
+		// verifier selects the reading; the rest of the predicate is then applied to that reading.
+		validHeader = verifierCalls > 0
+		res.Class("header_grey_shape")
+	}
 	verifyNS := int64(0)
 	if validHeader {
 		verifyNS = s.VerifyNS // the verifier only runs (and takes its time) for a well-formed credential
@@ -306,13 +416,23 @@ func runCase(s Script) (res vt.Result) {
 			res.Failf("request satisfies every condition but the inner handler ran %d times (status %d)", innerRuns, status)
 			return
 		}
-		if innerInfo != info {
-			res.Failf("inner handler saw TokenInfo %p, want the verifier's %p", innerInfo, info)
+		// "exactly the verifier's token info": the same contents; a defensive copy is as good as the same pointer
+		if innerInfo == nil || !reflect.DeepEqual(*innerInfo, *info) {
+			res.Failf("inner handler saw TokenInfo %+v, want the verifier's %+v", innerInfo, info)
 		}
 		if status != s.InnerCode {
 			res.Failf("admitted request: status %d, want the inner handler's %d", status, s.InnerCode)
 		}
-		if gotToken != tok {
+		if grey {
+			// the token is a blank-separated field of one of the header lines
+			found := false
+			for _, h := range s.Headers {
+				found = found || contains(strings.Fields(h), gotToken)
+			}
+			if !found {
+				res.Failf("verifier was given token %q, which is no field of the Authorization header lines %q", gotToken, s.Headers)
+			}
+		} else if gotToken != tok {
 			res.Failf("verifier was given token %q, want %q", gotToken, tok)
 		}
 		return
@@ -325,6 +445,9 @@ func runCase(s Script) (res vt.Result) {
 	switch {
 	case !validHeader:
 		allowed = []int{401}
+		if grey {
+			allowed = []int{400, 401} // a malformed header may also be refused as a malformed request (RFC 6750 3.1)
+		}
 		if verifierCalls != 0 {
 			res.Failf("verifier was called for a request without a valid Bearer credential (headers %q)", s.Headers)
 		}
@@ -334,8 +457,10 @@ func runCase(s Script) (res vt.Result) {
 		allowed = []int{400}
 	case s.Verifier == "both":
 		allowed = []int{400, 401}
-	case s.Verifier == "other", s.Verifier == "nilinfo":
+	case s.Verifier == "other":
 		allowed = []int{500}
+	case s.Verifier == "nilinfo":
+		allowed = []int{401, 500} // no token info and no error: a verifier fault (500) or a failed verification (401, the documented answer)
 	default:
 		if !scopesOK {
 			allowed = append(allowed, 403)
@@ -363,27 +488,32 @@ func runCase(s Script) (res vt.Result) {
 		chals := rec.Header().Values("WWW-Authenticate")
 		if wantMeta == "" && wantScope == "" {
 			// Nothing configured: nothing to carry. A bare challenge is acceptable, a wrong one is not.
-			for _, c := range chals {
-				if p, err := parseChallenge(c); err == nil && (p["resource_metadata"] != "" || p["scope"] != "") {
-					res.Failf("challenge %q carries parameters that were not configured", c)
+			if ps, err := parseChallenges(chals); err == nil {
+				for _, p := range ps {
+					if p["resource_metadata"] != "" || p["scope"] != "" {
+						res.Failf("challenge %q carries parameters that were not configured", chals)
+					}
 				}
 			}
 			return
 		}
-		if len(chals) != 1 {
-			res.Failf("status %d with %d WWW-Authenticate headers, want exactly one Bearer challenge", status, len(chals))
-			return
-		}
-		p, err := parseChallenge(chals[0])
+		// Challenges of other schemes and further auth-params (error=..., realm=...) are not the property's
+		// business: exactly one Bearer challenge must carry the configured URL and the configured scopes (as a set).
+		ps, err := parseChallenges(chals)
 		if err != nil {
 			res.Failf("status %d: %v", status, err)
 			return
 		}
-		if p["resource_metadata"] != wantMeta {
-			res.Failf("challenge %q: resource_metadata=%q, want %q", chals[0], p["resource_metadata"], wantMeta)
+		if len(ps) != 1 {
+			res.Failf("status %d with %d Bearer challenges in WWW-Authenticate %q, want exactly one", status, len(ps), chals)
+			return
 		}
-		if p["scope"] != wantScope {
-			res.Failf("challenge %q: scope=%q, want %q", chals[0], p["scope"], wantScope)
+		p := ps[0]
+		if p["resource_metadata"] != wantMeta {
+			res.Failf("challenge %q: resource_metadata=%q, want %q", chals, p["resource_metadata"], wantMeta)
+		}
+		if !sameSet(strings.Fields(p["scope"]), strings.Fields(wantScope)) {
+			res.Failf("challenge %q: scope=%q, want the scopes %q", chals, p["scope"], wantScope)
 		}
 	}
 	return
